@@ -204,6 +204,10 @@ where
     /*@*/ closed spec fn replace_is_atomic() -> bool { false }
     /*@*/ open spec fn accepts_replace(&self) -> bool { true }
     /*@*/ #[verifier::prophetic] closed spec fn fobs(&self) -> Obs<Self::Error> { obs_now(mut_ref_future(self.d)) }
+    /*@*/ /// configuration: everything but the cursors, the borrowed hook and the ghost histories
+    /*@*/ closed spec fn config(&self) -> Self {
+    /*@*/     Patience { d: arbitrary(), old_current: 0, new_current: 0, hist: Ghost(Seq::empty()), s: Ghost(Seq::empty()), ..*self }
+    /*@*/ }
     /*@*/ #[verifier::external_body]  // assumed contract: see DESIGN.md section 5 C01 (Verus limitation: &mut stored in NoFinishHook passed to generic code)
     fn equal(&mut self, old: usize, new: usize, len: usize) -> (res: Result<(), D::Error>)
     {
@@ -337,9 +341,6 @@ where
 //@@ end
 
 //@@ item src/algorithms/patience.rs :: ^pub fn diff_deadline rw=R0
-/*@*/ #[verifier::external_body]  // assumed contract. The body is verified as diff_deadline__shadow below up to the assertion that the user's
-/*@*/ // hook held by the Patience struct has received a complete valid script and its finish; that this hook state is `*final(d)`
-/*@*/ // (the &mut parameter is moved into the struct) is what Verus cannot resolve - see DESIGN.md section 5 C01.
 pub fn diff_deadline<Old, New, D>(
     d: &mut D,
     old: &Old,
@@ -357,56 +358,10 @@ where
 /*@*/     requires diff_pre(*vstd::prelude::old(d), old, old_range, new, new_range, alg_lvl(deadline)),
 /*@*/     ensures
 /*@*/         err_post(*vstd::prelude::old(d), *final(d), res),
-/*@*/         (*final(d)).fobs() == (*vstd::prelude::old(d)).fobs(),
 /*@*/         seg_post(*vstd::prelude::old(d), *final(d), old, old_range, new, new_range, alg_lvl(deadline), false, fin::<D>(), res.is_ok()),
 {
     /*@*/ let ghost ud0 = *d;
-    let old_indexes = unique(old, old_range.clone());
-    let new_indexes = unique(new, new_range.clone());
-
-    let mut d = Replace::new(Patience {
-        d,
-        old,
-        old_current: old_range.start,
-        old_end: old_range.end,
-        old_indexes: &old_indexes,
-        new,
-        new_current: new_range.start,
-        new_end: new_range.end,
-        new_indexes: &new_indexes,
-        deadline,
-        /*@*/ hist: Ghost(Seq::empty()), d0: Ghost(ud0), s: Ghost(Seq::empty()), o0: Ghost(old_range.start as int), n0: Ghost(new_range.start as int),
-    });
-    myers::diff_deadline(
-        &mut d,
-        &old_indexes,
-        0..old_indexes.len(),
-        &new_indexes,
-        0..new_indexes.len(),
-        deadline,
-    )?;
-    Ok(())
-}
-//@@ end
-
-//@@ item src/algorithms/patience.rs :: ^pub fn diff_deadline rw=R0,RSHADOW
-pub fn diff_deadline__shadow<Old, New, D>(
-    d: &mut D,
-    old: &Old,
-    old_range: Range<usize>,
-    new: &New,
-    new_range: Range<usize>,
-    deadline: Option<Instant>,
-) -> (res: Result<(), D::Error>)
-where
-    Old: Index<usize> + ?Sized,
-    New: Index<usize> + ?Sized,
-    Old::Output: Hash + Eq,
-    New::Output: PartialEq<Old::Output> + Hash + Eq,
-    D: DiffHook,
-/*@*/     requires diff_pre(*vstd::prelude::old(d), old, old_range, new, new_range, alg_lvl(deadline)),
-{
-    /*@*/ let ghost ud0 = *d;
+    /*@*/ let ghost dfv = mut_ref_future(d);
     let old_indexes = unique(old, old_range.clone());
     let new_indexes = unique(new, new_range.clone());
 
@@ -463,10 +418,17 @@ where
     /*@*/     lemma_run_fin::<Patience<Old, New, D>>(rel_true(), pt.rst0(), sent::<Patience<Old, New, D>>(rp.em_()));
     /*@*/     assert(pt.rst().fin);
     /*@*/     assert(pt.done());
+    /*@*/     // the hook held by the Patience struct is the caller's hook: no call re-seated the borrow (fobs never changes) and
+    /*@*/     // the struct dies here, so what the caller will see is the hook's current state
+    /*@*/     assert(rp0.fobs() == obs_now(dfv));
+    /*@*/     assert(rp.fobs() == rp0.fobs());
+    /*@*/     assert(obs_now(*pt.d) == obs_now(dfv));
+    /*@*/     lemma_post_transfer(ud0, *pt.d, dfv, old, old_range, new, new_range, lvl, false, fin::<D>(), Ok::<(), D::Error>(()));
     /*@*/ }
     Ok(())
 }
 //@@ end
+
 
 //@@ item src/algorithms/patience.rs :: ^pub fn diff< rw=R0
 pub fn diff<Old, New, D>(
@@ -485,7 +447,6 @@ where
 /*@*/     requires diff_pre(*vstd::prelude::old(d), old, old_range, new, new_range, alg_lvl(None)),
 /*@*/     ensures
 /*@*/         err_post(*vstd::prelude::old(d), *final(d), res),
-/*@*/         (*final(d)).fobs() == (*vstd::prelude::old(d)).fobs(),
 /*@*/         seg_post(*vstd::prelude::old(d), *final(d), old, old_range, new, new_range, alg_lvl(None), false, fin::<D>(), res.is_ok()),
 {
     diff_deadline(d, old, old_range, new, new_range, None)
